@@ -58,6 +58,13 @@ def handle : List String → String
       match ins.mapM parseSIn with
       | some es => renderSSt (srun es)
       | none => "bad-op"
+  | "gatherprov" :: d :: evs =>
+      match d.toNat?, evs.mapM parseEv with
+      | some depth, some es =>
+          let ps := runProv depth {} es
+          if ps.isEmpty then "-" else ";".intercalate (ps.map (fun p => renderTag p.key ++ "<-" ++ (if p.sizeReceived then "S" else "F") ++
+            "[" ++ ",".intercalate (p.elems.map renderTok) ++ "]"))
+      | _, _ => "bad-op"
   | "gather" :: d :: evs =>
       match d.toNat?, evs.mapM parseEv with
       | some depth, some es => renderSt (run depth es)
